@@ -182,7 +182,13 @@ func (s *streamHTTP) readMsg(c Codec, b []byte) (int, []byte, error) {
 		b = append(b, s.rbuf...)
 		b, n, err := codec.ReadNext(b, s.r, s.opts.maxReceiveMessageSize)
 		if err == io.EOF {
-			s.rEOF, err = true, nil
+			s.rEOF = true
+			if n == 0 {
+				// The body ended at a message boundary: there is no
+				// further message, not an empty one.
+				return count, nil, io.EOF
+			}
+			err = nil
 		}
 		s.rbuf = append(s.rbuf[:0], b[n:]...)
 		return count, b[:n], err
